@@ -86,3 +86,21 @@ func (m *Manager) VerifReplica() *Replica {
 
 // VerifListenerAddr is the replica's own listener address (identifies the node).
 func (r *Replica) VerifListenerAddr() string { return r.config.ReplicationListenerAddr }
+
+// VerifProcess hands a received stream response to the replica exactly as the
+// streaming state (direct=true) or the waiting state (direct=false) does.
+func (r *Replica) VerifProcess(response *replication_proto.WALStreamResponse, direct bool) error {
+	if direct {
+		return r.processEntriesWithoutStateTransitions(response)
+	}
+	if err := r.stateTracker.SetState(StateApplyingEntries); err != nil {
+		// the waiting state enters APPLYING first; from other states go through the legal path
+		r.stateTracker.ResetState()
+		r.stateTracker.SetState(StateStreamingEntries)
+		r.stateTracker.SetState(StateApplyingEntries)
+	}
+	err := r.processEntries(response)
+	r.stateTracker.ResetState()
+	r.stateTracker.SetState(StateStreamingEntries)
+	return err
+}
